@@ -115,6 +115,12 @@ let run_t () =
       | _ -> false in
     let ok = List.for_all into [vs; List.rev vs; List.map dbl vs; []] in
     Buffer.add_string b (" re=" ^ (if ok then "ok" else "model-depends-on-destination"));
+    (* static types: the model has one encode per value kind; the size calculator, the growing writer and a
+       fixed writer of exact capacity agree with it whatever static type the stream is used through *)
+    let st_ok = wsc_put_seq vs = zi n &&
+                List.for_all (fun v -> wsc_put_seq [v] = zi (List.length (encode v))) vs &&
+                (match fbw_write_chunks (fbw_init (zi n) bg) cs with (w, FOk) -> fbw_view w = Some enc | _ -> false) in
+    Buffer.add_string b (" st=" ^ (if st_ok then "ok" else "model-static-type"));
     Buffer.contents b
 
 let run_r () =
